@@ -19,7 +19,7 @@ CONSTANTS MaxSeg, MaxDepth, SelIdx, ValIdx, NameIdx, Fillers, Loose, SemiInParen
 
 Sels == <<"a", "a:hover", "@media (min-width: 10px)", "a::before", "b[x=\"{\"]", ".c > d", "e[t='a\"{']", "a:not([t=\"}\"])">>
 Names == <<"color", "--v", "$v", "margin">>
-Vals == <<"red", "\"x;y\"", "url(a:b)", "1px  solid", "'{}'", "calc(1px + (2px))", "\"it's }\"", "'a\"{b;'", "url(\"x;y\")", "f(\")\", '(')">>     \* 7, 8: a string holding the other kind of quote
+Vals == <<"red", "\"x;y\"", "url(a:b)", "1px  solid", "'{}'", "calc(1px + (2px))", "\"it's }\"", "'a\"{b;'", "url(\"x;y\")", "f(\")\", '(')", "50%", "10% 20%">>     \* 7, 8: a string holding the other kind of quote
 BadVal == "f(c;d)"        \* a semicolon inside parentheses: known finding F16, generated only when SemiInParens
 
 VARIABLES doc, nodes, evs, open, nseg, hasF16
@@ -75,7 +75,8 @@ DeclClose == /\ NoSemi /\ Step /\ open # <<>>
                                    EXCEPT ![Last(open)].cb = ve, ![Last(open)].e = ve + 1]
                      /\ evs' = evs \o <<Ev("propertyName", L, ne, ne), Ev("propertyValue", vs, ve, ve), Ev("blockEnd", ve, ve + 1, ve)>>
              /\ open' = Front(open) /\ UNCHANGED hasF16
-Filler == Step /\ (\E t \in Fillers : doc' = doc \o (IF t = "NL" THEN "\n  " ELSE IF t = "C2" THEN "/** x } **/" ELSE IF t = "C3" THEN "/***/" ELSE t)) /\ UNCHANGED <<nodes, evs, open, hasF16>>
+Filler == Step /\ (\E t \in Fillers : doc' = doc \o (IF t = "NL" THEN "\n  " ELSE IF t = "C2" THEN "/** x } **/" ELSE IF t = "C3" THEN "/***/"
+                                                      ELSE IF t = "C4" THEN "/* a\n{ b: c; }\n*/" ELSE IF t = "CRLF" THEN "\r\n  " ELSE t)) /\ UNCHANGED <<nodes, evs, open, hasF16>>
 Next == OpenRule \/ CloseRule \/ Decl \/ DeclClose \/ Filler
 Spec == Init /\ [][Next]_vars
 Complete == open = <<>> /\ nseg > 0
